@@ -9,7 +9,7 @@ cp /repo/gemclus/tree/_utils.cpython-312-x86_64-linux-gnu.so $wt/gemclus/tree/ 2
 (cd $wt && git apply "$patch") || { echo "patch does not apply"; git -C /repo worktree remove --force $wt; rm -rf /tmp/harmrun_$tag; exit 2; }
 rsync -a --exclude replays --exclude .git /verif/ $vc/
 for c in $checks; do
-  ( cd $vc && VERIF_REPO=$wt timeout 3000 ./check $c --tier quick > /tmp/harmrun_$tag/$c.log 2>&1; echo "$(basename $patch) $c rc=$?" >> /tmp/harmrun_$tag/rc.txt ) &
+  ( cd $vc && VERIF_REPO=$wt timeout 3000 ./check $c --tier quick > /tmp/harmrun_$tag/$c.log 2>&1; rc=$?; echo "$(basename $patch) $c rc=$rc" >> /tmp/harmrun_$tag/rc.txt ) &
 done; wait
 sort /tmp/harmrun_$tag/rc.txt | grep -v "rc=0"
 grep -h "VIOLATION" /tmp/harmrun_$tag/C*.log | head
